@@ -64,8 +64,10 @@ func VerifC19GetExecutable() {
 
 var c19Versions = []string{"exec-v1", "exec-v2"}
 
-// c19PickLen: executable length from {0, step, 2*step, ...} (exe_len_count values).
-func c19PickLen() int { return vs.Pick("exe_len", vs.Param("exe_len_count")) * vs.Param("exe_len_step") }
+// c19PickLen: executable length from {min, min+step, min+2*step, ...} (exe_len_count values).
+func c19PickLen() int {
+	return vs.Param("exe_len_min") + vs.Pick("exe_len", vs.Param("exe_len_count"))*vs.Param("exe_len_step")
+}
 
 // c19PlanRaw draws the behaviour of signer and executor for one raw request. Only the version is chosen by
 // forking (alt); the failure flags, exit code, calldata and output stay symbolic.
